@@ -927,3 +927,9 @@ mutant("M153-task-end-only-to-first-callback", ["C13"], "EVENTS-HELPERS-1", (RTU
 benign("B-operation-end-helper-truthiness", ["C13"], (RTUTILS, "def handle_operation_end_callbacks(callbacks, name) -> None:\n    if callbacks is not None:", "def handle_operation_end_callbacks(callbacks, name) -> None:\n    if callbacks:"))
 mutant("M154-like-args-spec-default-inverted", ["C19"], "SPEC-THREAD-1", (CREATION_F, "    if spec is None:\n        spec = x.spec\n    return dict(shape=x.shape", "    if spec is not None:\n        spec = x.spec\n    return dict(shape=x.shape"))
 benign("B-like-args-spec-or", ["C19"], (CREATION_F, "    if spec is None:\n        spec = x.spec\n    return dict(shape=x.shape", "    spec = spec or x.spec\n    return dict(shape=x.shape"))
+# seeded round 3 (C08-6): division by an elapsed time in the scheduling code
+BACKUP_F = "cubed/runtime/backup.py"
+mutant("M155-straggler-test-as-ratio", ["C08"], "SCHED-DIV-1", (BACKUP_F, "    result = duration > completed_durations[n] * slow_factor", "    result = duration / completed_durations[n] > slow_factor"))
+mutant("M156-mean-task-duration-rate", ["C08"], "SCHED-DIV-1", (BACKUP_F, "    duration = now - start_times[task]\n", "    duration = now - start_times[task]\n    rate = len(end_times) / (now - min(start_times.values()))\n"))
+benign("B-straggler-test-commuted", ["C08"], (BACKUP_F, "    result = duration > completed_durations[n] * slow_factor", "    result = slow_factor * completed_durations[n] < duration"))
+benign("B-straggler-fraction-of-tasks", ["C08"], (BACKUP_F, "    duration = now - start_times[task]\n", "    duration = now - start_times[task]\n    done_fraction = len(end_times) / len(start_times)\n"))
